@@ -66,7 +66,7 @@ ASSUMPTIONS = [
     'is applied again), so without K the state space is infinite; on a tree where date=None reloads the tables K is '
     'immaterial (the repaired scratch tree closes at 410 states in the quick tier). Violating states ARE expanded '
     '(nothing is pruned). Hard caps (reported in caps_hit, never hit on the unchanged tree): 50 000 states, '
-    '60 000 / 600 000 transitions (quick / thorough; the unchanged tree needs 32 458 / 399 878) - they only bound the '
+    '60 000 / 600 000 transitions (quick / thorough; the unchanged tree needs 32 458 ... 33 290 / 400 080) - they only bound the '
     'run time on a mutant whose state space explodes',
     'the ENU/NED relation and the +180/-180 relation are judged against fresh answers and therefore only on transitions '
     'whose elements already equal the fresh object\'s (otherwise the same corrupted vector would be reported three times)',
